@@ -39,7 +39,7 @@ theorem flatMap_perm_congr {α β} (l : List α) (f g : α → List β) (h : ∀
     rw [List.flatMap_cons, List.flatMap_cons]
     exact (h a (by simp)).append (ih fun b hb => h b (by simp [hb]))
 
-abbrev rowLe : RowKey × List Cell → RowKey × List Cell → Bool := fun a b => cmpOn (·.1) rowKeyCmp a b != .gt
+abbrev rowLe : SliceRowKey × List Cell → SliceRowKey × List Cell → Bool := fun a b => cmpOn (·.1) rowKeyCmp a b != .gt
 abbrev evLe : Cell → Cell → Bool := fun a b => cmpOn (·.ev) Date.cmp a b != .gt
 
 theorem rows_keys (t : List Cell) :
@@ -50,7 +50,7 @@ theorem rows_keys (t : List Cell) :
 theorem rows_keys_asc (t : List Cell) :
     ((Triangle.slicePeriodRows t).map (·.1)).Pairwise (fun a b => (rowKeyCmp a b != .gt) = true) := by
   rw [rows_keys, List.pairwise_map]
-  exact sorted_mergeSort (cmp := cmpOn (fun p : RowKey × List Cell => p.1) rowKeyCmp) _
+  exact sorted_mergeSort (cmp := cmpOn (fun p : SliceRowKey × List Cell => p.1) rowKeyCmp) _
 
 theorem rows_keys_nodup (t : List Cell) : ((Triangle.slicePeriodRows t).map (·.1)).Nodup := by
   rw [rows_keys]
@@ -58,7 +58,7 @@ theorem rows_keys_nodup (t : List Cell) : ((Triangle.slicePeriodRows t).map (·.
   rw [(hp.map _).nodup_iff, JoinL.groupBy_keys]
   exact JoinL.firstKeys_nodup _ _
 
-theorem mem_rows {t : List Cell} {p : RowKey × List Cell} (hp : p ∈ Triangle.slicePeriodRows t) :
+theorem mem_rows {t : List Cell} {p : SliceRowKey × List Cell} (hp : p ∈ Triangle.slicePeriodRows t) :
     p.1 ∈ JoinL.firstKeys Cell.rowKey t ∧
       p.2 = (t.filter fun c => c.rowKey == p.1).mergeSort evLe := by
   unfold Triangle.slicePeriodRows at hp
@@ -66,7 +66,7 @@ theorem mem_rows {t : List Cell} {p : RowKey × List Cell} (hp : p ∈ Triangle.
   have hq' : q ∈ groupBy Cell.rowKey t := (List.mergeSort_perm _ _).mem_iff.mp hq
   refine ⟨?_, ?_⟩
   · show q.1 ∈ _
-    rw [← JoinL.groupBy_keys]; exact List.mem_map_of_mem (f := fun p : RowKey × List Cell => p.1) hq'
+    rw [← JoinL.groupBy_keys]; exact List.mem_map_of_mem (f := fun p : SliceRowKey × List Cell => p.1) hq'
   · show q.2.mergeSort evLe = _
     rw [JoinL.groupBy_entry Cell.rowKey t hq']
 
